@@ -71,7 +71,8 @@ func findClosestN(query fastaio.EncodedFastaRecord, catchmentSize int, maxdist f
 		}
 
 		if maxdist != -1.0 {
-			if distance > maxdist {
+			// (an undefined distance - no site at which query and target are both resolved - is not within any distance)
+			if distance > maxdist || math.IsNaN(distance) {
 				continue
 			}
 		}
